@@ -164,7 +164,7 @@ class ResponderSys:
                 'kill': bool}
     via 0 = the main interface, 1 = the second interface (PORT2).
     shared: the responder is created with the one function object that all
-    `shared` responders of the system have in common (log entries of that
+    `shared` responders of its dispatcher have in common (log entries of that
     function carry no responder id; they are attributed to the responders that
     still own it, in the order the reference expects them).
     kill: the menu offers ['kill', i, j, how]: responder i gets a function that
@@ -187,11 +187,17 @@ class ResponderSys:
         self.log = []
         log = self.log
 
-        def shared(msg, time, addr, port):
-            log.append(['S', 0, _jsonable(msg), time,
-                        [getattr(addr, 'hostname', None),
-                         getattr(addr, 'port', None)], port])
-        self.shared_f = shared
+        def mk_shared(tag):
+            def shared(msg, time, addr, port):
+                log.append([tag, 0, _jsonable(msg), time,
+                            [getattr(addr, 'hostname', None),
+                             getattr(addr, 'port', None)], port])
+            return shared
+        # one shared object per dispatcher (the order in which the two
+        # dispatchers run is not decided, so entries of an object shared
+        # across them could not be attributed)
+        self.shared_f = {False: mk_shared('S-exact'),
+                         True: mk_shared('S-matching')}
 
     # ---- menu (depends on the reference state only) -------------------------
     def ops(self):
@@ -253,7 +259,8 @@ class ResponderSys:
                 return []
             OscFunc = self.env['rsp'].OscFunc
             sid = None if src is None else self.env['NetAddr'](src[0], src[1])
-            f = self.shared_f if shared else self._cb(r.rid, 0)
+            f = self.shared_f[bool(matching)] if shared \
+                else self._cb(r.rid, 0)
 
             def call():
                 if matching:
@@ -350,12 +357,21 @@ class ResponderSys:
         if fired is not None:
             # entries of the shared function object: attributed to the
             # responders that still own it, in the order they are expected
-            owners = [f['rid'] for f in fired
-                      if f['shared'] and not f['optional']] + \
-                     [f['rid'] for f in fired if f['shared'] and f['optional']]
+            owners = {}
+            for opt in (False, True):
+                for f in fired:
+                    if f['shared'] and f['optional'] == opt:
+                        owners.setdefault('S-' + f['group'], []).append(
+                            f['rid'])
+            for rid in ref.last_killed:     # surplus entries: these first
+                if ref.rs[rid].shared:
+                    owners.setdefault(
+                        'S-matching' if ref.rs[rid].matching else 'S-exact',
+                        []).append(rid)
             for e in obs:
-                if e[0] == 'S':
-                    e[0] = owners.pop(0) if owners else 'S+'
+                if isinstance(e[0], str):
+                    own = owners.get(e[0])
+                    e[0] = own.pop(0) if own else 'S+'
         self.last = ['msg', k, [[e[0], e[1]] for e in obs]]
         if ref.last_optional:
             self.tainted = True     # resulting state not decided: not extended
@@ -428,9 +444,11 @@ class ResponderSys:
             else:
                 kind = 'resp-missed'
             dis.append((kind, exp_ids, obs_ids, detail))
-        bad = dispatch_ref.check_order(
-            [f for f in fired if not f['optional'] or f['rid'] in seen],
-            obs_ids)
+        # (with an optional responder - one that a function of the other
+        # dispatcher removes - entries of a shared function object cannot be
+        # attributed reliably: no order is demanded for that delivery)
+        bad = [] if ref.last_optional else \
+            dispatch_ref.check_order(fired, obs_ids)
         if bad:
             g = expd[bad[0][0]]['group']
             dis.append((f'resp-order-{g}', exp_ids, obs_ids,
@@ -1393,9 +1411,42 @@ def replay(job):
 # =============================================================================
 # known findings predicates
 
-# every defect found so far has a proposed repair in /verif/fixes/C18-*.patch;
-# no open finding is filed, so there is nothing to match here.
-PREDICATES = {}
+# (the repair of both open findings is proposed in
+# /verif/fixes/C18-dispatchers-keep-proxies-in-active.patch)
+
+def _variant_of(v, rid):
+    """variant (list) with which responder `rid` of the history was made"""
+    news = [op for op in v['case']['history'] if op[0] == 'new']
+    return v['case']['params']['variants'][news[rid][1]] \
+        if rid < len(news) else None
+
+
+def shared_function_object(v):
+    """at least two responders of the exact dispatcher were created with
+    the same function object"""
+    if v['case'].get('system') != 'resp':
+        return False
+    var = v['case']['params']['variants']
+    n = sum(1 for op in v['case']['history']
+            if op[0] == 'new' and not var[op[1]][1] and
+            len(var[op[1]]) > 5 and var[op[1]][5])
+    return n >= 2
+
+
+def removed_by_callback_exact(v):
+    """an exact responder's function frees / disables another responder"""
+    if v['case'].get('system') != 'resp':
+        return False
+    for op in v['case']['history']:
+        if op[0] == 'kill':
+            var = _variant_of(v, op[1])
+            if var is not None and not var[1]:
+                return True
+    return False
+
+
+PREDICATES = {f.__name__: f for f in (shared_function_object,
+                                      removed_by_callback_exact)}
 
 
 # =============================================================================
